@@ -31,7 +31,8 @@ for q, c in REGISTRY.items():
         k = 0
         for o in obls:
             if sub in o.name:
-                fs, goal = solve.formulas_for(o)
+                from pyvc.run import axioms_for
+                fs, goal = solve.formulas_for(o, axioms_for(o) if not os.environ.get('NOAX') else ())
                 s = z3.Solver()
                 for x in fs:
                     s.add(x)
